@@ -208,7 +208,12 @@ func hfail(t *rapid.T, w *hworld, err error) {
 func TestC20History(t *testing.T) {
 	fixture.Quiet()
 	rapid.Check(t, func(t *rapid.T) {
-		w := &hworld{dir: fixture.ScratchDir("c20"), pin: "03145154", prevVar: -1, paired: map[string]*refctl.Controller{}, flags: map[string]bool{}}
+		// the library's default storage path is a folder named like the accessory: any characters
+		dirName := rapid.SampledFrom([]string{"c20", "c20", "Lamp [kitchen] ", "Sensor [1 ", "back\\slash ", "What's this? ", "a*b ", "ünï 😀 ", "{x,y} ", "100% "}).Draw(t, "storage-dir-name")
+		w := &hworld{dir: fixture.ScratchDir(dirName), pin: "03145154", prevVar: -1, paired: map[string]*refctl.Controller{}, flags: map[string]bool{}}
+		if dirName != "c20" {
+			w.flags["storage-path:special-characters"] = true
+		}
 		defer os.RemoveAll(w.dir)
 		defer w.stop()
 		note := func(s string) { w.hist = append(w.hist, s) }
